@@ -293,7 +293,7 @@ def check_case(case, res=None):
 
 
 def plan(tier):
-    return [{"n": 130, "rels": 3}] * 16 if tier == "quick" else [{"n": 3000, "rels": 3}] * 32 + [{"n": 1500, "rels": 4}] * 16
+    return [{"n": 130, "rels": 3}] * 16 if tier == "quick" else [{"n": 1500, "rels": 3}] * 32 + [{"n": 700, "rels": 4}] * 16
 
 
 def run_shard(spec, seed, res, only_bucket=None):
